@@ -14,6 +14,7 @@ import CssVerif.Driver.UptoOps
 import CssVerif.Driver.ImportOps
 import CssVerif.Driver.LinkOps
 import CssVerif.Driver.UrlOps
+import CssVerif.Driver.EscOps
 open CssVerif CssVerif.Proto
 
 def showTok (t : Tok) : String :=
@@ -63,6 +64,8 @@ def step (line : String) : String :=
   | ["tree", fx, n, hist] => LinkOps.run fx n hist
   | ["urlrt", u] => UrlOps.opUrlRt u
   | ["urltrav", t] => UrlOps.opUrlTrav t
+  | ["escall", e, t] => EscOps.opEscAll e t
+  | ["unesc", t] => EscOps.opUnesc t
   | ["sel", ns, hex] => SelOps.opSel ns hex
   | ["num", fx, om, hex] => NumOps.opNum fx om hex
   | ["numval", hex] => NumOps.opVal hex
